@@ -38,6 +38,13 @@ pub fn miri_lane(prop: &str, name: &str, seeds: &[u64], many_seeds: Option<&str>
     let mut lr = LaneResult { name: format!("miri:{name}"), ..Default::default() };
     let dir = harness_dir();
     let mut flags = "-Zmiri-disable-isolation".to_string();
+    // The node cache (moka) pulls in crossbeam-epoch, whose tagged pointers go through
+    // integer-to-pointer casts. Stacked Borrows cannot track those and reports a retag error
+    // inside crossbeam-epoch (internal.rs) that is an artefact of that model; the cache
+    // workloads therefore run under Tree Borrows, where they are clean (DESIGN.md section 5).
+    if name.contains("cache") {
+        flags.push_str(" -Zmiri-tree-borrows");
+    }
     if let Some(ms) = many_seeds {
         flags.push_str(&format!(" -Zmiri-many-seeds={ms}"));
     }
